@@ -3,7 +3,7 @@
 Obligations: T-invfilters (getter selectors, resolve_target_contracts, sender restriction,
 resolve_target_selectors regenerated from __main__.py), T-stateid (snapshot_state, the digest behind
 get_state_id, regenerated from cheatcodes.py), T-storedigest (StorageData.digest regenerated from
-sevm.py), T-pathslice (Path._get_related, the dependency update of Path.append, Path.slice regenerated from sevm.py; Exec.path_slice shape-checked), Props/C15.vo, lint, extraction.
+sevm.py), T-pathslice (Path._get_related, the dependency update of Path.append, Path.slice regenerated from sevm.py; Exec.path_slice shape-checked), T-probes (the decisions of _compute_frontier / CounterexampleHandler about probes_reported), Props/C15.vo, lint, extraction.  T-invfilters also regenerates the call sites (run_target_contract / _compute_frontier): targets are resolved per address, in the call that runs them.
 Ties:
   X-C15-stateid (inside L3): for the setUp state and every successful end state of every target
       transaction of every L3 run, the components of the state are read off the Exec (term ids, code
@@ -13,6 +13,11 @@ Ties:
       states; every condition on a state symbol is in the slice -- and (model) the extracted
       regenerated snapshot_state/StorageData.digest with a collision-free hash -- the same partition.
       The frontier model then de-duplicates by the MODEL's state ids.
+  X-C15-probes (inside L3): every target transaction that ends in an assertion failure is recorded with the
+      feasibility of its full path condition (z3), the functions marked as reported before / after
+      _compute_frontier examined it, whether it was handed to the solver and the solver's answer; compared
+      with (spec) a feasible failure of every failing function is submitted, a function is marked only when an
+      answer carried a model, and (model) the extracted regenerated decisions run over the same events.
   X-C15-filters (L1): the real resolve_target_contracts / resolve_target_selectors vs the
       extracted regenerated model vs an independent Python rendering of Foundry's rule, on an
       exhaustive grid of filter sets.
@@ -31,7 +36,7 @@ import time
 from harness import common, pool
 
 PID = "C15"
-TRANSLATORS = ["T-invfilters", "T-storedigest", "T-stateid", "T-pathslice"]
+TRANSLATORS = ["T-invfilters", "T-storedigest", "T-stateid", "T-pathslice", "T-probes"]
 
 # Genuine defects of halmos found by this check on the unchanged tree (see the final report).
 KNOWN = common.known_for("C15")  # entries live in /verif/known_findings.json
@@ -41,6 +46,7 @@ ASSUMPTIONS = [
     "state ids: C15_state_id_identical / C15_cover_snapshot assume collision-free hashes (xxh3_64 / xxh3_128 as injective functions into abstract digest types: a visible hypothesis), one storage-key shape per run (uniform_keys: visible hypothesis) and hash-consed terms (equal id = same term); a hash input is modelled as the list of its fixed-width items (32-byte words from int.to_bytes(_, length=32), 16-byte storage digests), not as bytes; CPython id() reuse for code objects and z3 AST id reuse are not modelled",
     "the slice: Path._get_related / the dependency update of Path.append / Path.slice are regenerated and proved to give exactly the BACKWARD dependency closure of the state variables (C15_slice_exact); that this is smaller than the constraints on the state is a machine-checked witness (C15_slice_closure_refuted) reproduced on the real code (known finding). The variables of a term (Path.get_var_set, z3) and the sources of the state variables in Exec.path_slice (balance, symbolic code chunks, stored values: shape-checked by the translator) are inputs of the model: on every recorded state the symbols are recomputed from the z3 terms by the harness and the model's slice is compared with Path.sliced",
     "the reference interpreter (Spec/Evm.v) is the EVM oracle; vm.roll/fee/chainId/warp in handlers are given their Foundry meaning by the harness (the block field changes for the rest of the sequence)",
+    "probes: the solver's answer for a candidate is an input of the probe model (C15_probe_genuine_reported assumes that every submitted query is answered: on the real code the answers of the last depth are often cut off by the executor shutdown, known finding F12); feasibility of a failing path is decided by the harness with z3 on the path conditions",
     "the extracted model and driver are faithful to the Coq definitions (extraction is trusted)",
 ]
 PARTIAL = ("the symbolic engine and the timestamp refresh are parameters of the frontier model (tied by feeding the model the outcomes recorded from the real run); the state id is the regenerated snapshot_state over the components recorded for each state (term ids, code identities, storage items, condition ids, slice), the slice the regenerated Path.slice over the recorded symbols of each condition; the two are not composed in one Coq function (term ids vs. symbols); "
@@ -475,6 +481,107 @@ def check_state_ids(rep, name, trace, model, rerun):
     return res
 
 
+RCODE = {"sat": 0, "unsat": 1, "unknown": 2}
+
+
+def check_probes(rep, name, trace, model, rerun):
+    """'Any assertion inside a target is checked': the target transactions that ended in an assertion
+    failure while the frontier was computed (trace["asserts"], in order, each with the feasibility of
+    its path decided with z3 and the functions marked as reported before / after _compute_frontier
+    looked at it), the candidates handed to the solver (trace["handled"]) and the answers
+    (trace["probe_results"]), against
+      (spec)  every function with a feasible failing path gets a feasible candidate submitted; a
+              function is marked as reported only when an answer with a model exists for it;
+      (model) the regenerated decisions (Gen/GenProbes.v) run over the same events by the extracted
+              ProbeModel: the same candidates are submitted, the same functions end up marked."""
+    asserts = trace.get("asserts") or []
+    if not asserts:
+        return
+    handled = [u for u, _ in trace.get("handled") or []]
+    hset = set(handled)
+    names = trace.get("probe_names") or {}
+    results = {u: (r, hm) for u, r, hm in trace.get("probe_results") or []}
+    complete = all(u in results for u in handled)
+    fn = lambda p: names.get(str(p), p)  # noqa: E731
+    rep.count("l3_probes", "cases with assertion failures inside targets")
+    if any(a["feasible"] == 0 for a in asserts):
+        rep.count("l3_probes", "cases with a candidate refuted by the full path condition")
+    case = dict(rerun, asserts=asserts, handled=trace.get("handled"), probe_results=trace.get("probe_results"))
+    by_p = {}
+    for a in asserts:
+        by_p.setdefault(a["probe"], []).append(a)
+    # ---- spec: genuine failures are submitted
+    for p, lst in by_p.items():
+        feas = [a for a in lst if a["feasible"] == 1]
+        if feas and not any(a["uid"] in hset for a in feas):
+            subm = [a["seq"] for a in lst if a["uid"] in hset]
+            rep.fail("failing-input", f"L3 case {name}: the assertion inside {fn(p)} fails after the call sequence {feas[0]['seq']} (the path is feasible), but no feasible failure of "
+                     f"{fn(p)} was ever handed to the solver: the candidates submitted were {subm} (all refuted by their full path condition); the genuine failure was skipped "
+                     f"because the function was marked as reported ({[fn(q) for q in feas[0]['reported_before']]}) without a counterexample", case=case, sig={"defect": "probe-dropped"})
+    # ---- spec: marked only with a counterexample
+    if complete:
+        with_model = {a["probe"] for a in asserts if a["uid"] in results and results[a["uid"]][1]}
+        snaps = [("before " + str(a["seq"]), a["reported_before"]) for a in asserts] + [("after " + str(a["seq"]), a.get("reported_after") or []) for a in asserts]
+        fin = trace.get("reported_final") or {}
+        if fin.get("results_seen") == len(trace.get("probe_results") or []):
+            snaps.append(("at the end", fin.get("reported") or []))
+        for when, snap in snaps:
+            bad = [p for p in snap if p not in with_model]
+            if bad:
+                rep.fail("failing-input", f"L3 case {name}: {[fn(p) for p in bad]} is marked as reported ({when}) although no answer of the solver carried a model for it "
+                         f"(answers: {[(a['seq'], results.get(a['uid'])) for a in asserts if a['uid'] in hset]}): later failures of the function are not examined", case=case,
+                         sig={"defect": "probe-marked-without-counterexample"})
+                break
+    # ---- model
+    if model is None:
+        return
+    racy = any((a["probe"] in (a.get("reported_after") or [])) != (a["probe"] in a["reported_before"]) for a in asserts)
+    if racy:
+        rep.count("l3_probes", "cases where an answer arrived while a candidate was examined (model not compared)")
+        return
+    events, done, sub = [], set(), []
+    for a in asserts:
+        for k, u in enumerate(sub):
+            if k not in done and u in results and results[u][1] and by_uid_probe(asserts, u) in a["reported_before"]:
+                events.append([1, k, 0, 0])
+                done.add(k)
+        if a["uid"] in results:
+            r, hm = results[a["uid"]]
+            rc, hm = RCODE.get(r, 3), int(bool(hm))
+        else:
+            rc, hm = (0, 1) if a["feasible"] == 1 else (1, 0)
+        events.append([0, a["probe"], rc, hm])
+        if a["uid"] in hset:
+            sub.append(a["uid"])
+    for k in range(len(sub)):
+        if k not in done:
+            events.append([1, k, 0, 0])
+    out = model.batch([("c15_probes", [len(events)] + [z for e in events for z in e])])[0]
+    if out is None:
+        rep.fail("broken-tie", f"L3 case {name}: the probe model failed on the recorded events", case=case)
+        return
+    it = iter(out)
+    flags = [next(it) for _ in range(next(it))]
+    reported = [next(it) for _ in range(next(it))]
+    real_flags = [1 if a["uid"] in hset else 0 for a in asserts]
+    if flags != real_flags:
+        i = next(j for j, (x, y) in enumerate(zip(flags, real_flags)) if x != y)
+        a = asserts[i]
+        rep.fail("broken-tie", f"L3 case {name}: the failing path {a['seq']} of {fn(a['probe'])} (functions marked as reported at that moment: {[fn(q) for q in a['reported_before']]}) was "
+                 f"{'handed to the solver' if real_flags[i] else 'skipped'} by _compute_frontier; the regenerated decisions {'submit' if flags[i] else 'skip'} it", case=case)
+        return
+    if complete and (trace.get("reported_final") or {}).get("results_seen") == len(trace.get("probe_results") or []):
+        real = sorted((trace["reported_final"] or {}).get("reported") or [])
+        if sorted(set(reported)) != real:
+            rep.fail("broken-tie", f"L3 case {name}: functions marked as reported at the end: implementation {[fn(p) for p in real]}, regenerated decisions over the recorded answers {[fn(p) for p in sorted(set(reported))]}", case=case)
+            return
+    rep.coverage["probe_runs_compared"] = rep.coverage.get("probe_runs_compared", 0) + 1
+
+
+def by_uid_probe(asserts, u):
+    return next(a["probe"] for a in asserts if a["uid"] == u)
+
+
 def _by_terms(comps, uids):
     from harness import c15_lib as B
 
@@ -522,6 +629,9 @@ def check_l3(rep, case, out, model):
     sid = {"classes": None, "cause": None}
     if trace and trace.get("setup"):
         sid = check_state_ids(rep, name, trace, model, rerun)
+    # ---- spec vs implementation, model vs implementation: assertion failures inside targets
+    if trace:
+        check_probes(rep, name, trace, model, rerun)
     dup_dropped = False
     if trace and trace.get("setup"):
         kept = {u for f in trace["frontiers"].values() for u in f}
@@ -620,7 +730,9 @@ QUICK_CORPUS = {
     "value-needed", "time-after-other-call", "F9-roll", "setup-merge-time", "F12-probe", "value-balance",
     "branch-cond-arg-small", "branch-cond-arg-big", "branch-cond-arg-d3", "branch-cond-arg-late-store",
     "branch-cond-caller-eq", "branch-cond-value", "branch-cond-unrelated",
-    "branch-cond-related-lo", "branch-cond-related-hi", "branch-cond-forward-lo", "branch-cond-forward-hi",
+    "branch-cond-related-hi", "branch-cond-forward-hi",
+    "instances-tsel-second-hit", "instances-tsel-first-hit", "instances-tsel-holds", "instances-esel-first",
+    "probe-after-refuted-candidate", "probe-sibling-refuted-first", "probe-sibling-genuine-first", "probe-refuted-only",
 }
 
 
@@ -641,6 +753,12 @@ def gen_l3_cases(tier, r):
     # state identity: stored transaction values with a branch on them (see c15_lib.gen_branch_case)
     for j in range(3 if tier == "quick" else 60):
         cases.append(B.gen_branch_case(r, j, max_depth=2 if tier == "quick" else 3))
+    # per-address target resolution: several instances of one contract with their own selector filters
+    for j in range(2 if tier == "quick" else 40):
+        cases.append(B.gen_instances_case(r, j))
+    # assertions inside targets: refuted candidates before / beside genuine failures of the same function
+    for j in range(1 if tier == "quick" else 30):
+        cases.append(B.gen_probe_case(r, j, max_depth=2 if tier == "quick" else 3))
     return cases
 
 
@@ -680,7 +798,7 @@ def run(rep, tier):
         assumptions=ASSUMPTIONS,
         partial=PARTIAL,
         rule=("L1: filter sets over a 3-address universe (test contract + two targets): all combinations of targetContracts x excludeContracts x targetSelectors (absent/empty/non-empty per address) x deployed sets (sampled in quick, exhaustive in thorough); selector filters over an 11-method table with view/pure/payable/reserved names, on the test contract and on another contract; all sender filter combinations over 3 addresses. "
-              "L3: hand-written corpus (depth off-by-one, revisited states, arguments, every filter kind, senders, values, timestamps, cheatcode block fields, probes; state identity: functions that store an argument / the sender / msg.value and branch on it -- directly or through a related condition -- without changing storage differently, followed by calls enabled on one side of the branch) + grammar-generated targets (1-2 contracts, 1-3 guarded-transition functions over two slots, invariant on one slot, depth 0..3, random filter combination) + grammar-generated state-identity targets (stored source arg|sender|value, comparison gt|lt|eq, constant, store before or after the branch, enabled functions on either side, optional bystander, depth 2..3); "
+              "L3: hand-written corpus (depth off-by-one, revisited states, arguments, every filter kind, senders, values, timestamps, cheatcode block fields, probes; state identity: functions that store an argument / the sender / msg.value and branch on it -- directly or through a related condition -- without changing storage differently, followed by calls enabled on one side of the branch) + grammar-generated targets (1-2 contracts, 1-3 guarded-transition functions over two slots, invariant on one slot, depth 0..3, random filter combination) + grammar-generated state-identity targets (stored source arg|sender|value, comparison gt|lt|eq, constant, store before or after the branch, enabled functions on either side, optional bystander, depth 2..3) + grammar-generated instance targets (one contract deployed 2-3 times, a random targetSelectors / excludeSelectors entry per address) + grammar-generated probe targets (an assertion refuted only by the full query at one stage, a genuine one at another, stages reached as siblings or in a chain, random function order); "
               "expected verdict = breadth-first brute force of all admissible call sequences (arguments from the constants of the code +-1, senders from the filters and guards, values 0/1/guard constants for payable functions, non-decreasing timestamps from the guard thresholds) on the extracted reference interpreter; a case is non-trivial when depth >= 1 (L3) or some filter is non-empty (L1); distinct by hash of the case"),
     )
 
